@@ -143,7 +143,7 @@ func (c14) Run(c *fw.Case) {
 			pats  []string
 			names []string
 		}
-		group := gen.Pick(r, []pp{{[]string{"^a", "b$", "^.{2}$", "a|b"}, []string{"ab"}}, {[]string{"^[ab]+$", "^a", "a|b"}, []string{"a", "ab", "aa"}}, {[]string{"[0-9]", "^.{2}$", "0$"}, []string{"10", "00"}}, {[]string{"é", "^.{2}$", "^é"}, []string{"éa", "éé"}}})
+		group := gen.Pick(r, []pp{{[]string{"^a\\.b$", "^a[.]b$", "^a\\x2eb$", "a.b"}, []string{"a.b"}}, {[]string{"^ab$", "^(ab)$", "^a(b)$", "^[a]b$"}, []string{"ab"}}, {[]string{"^a", "b$", "^.{2}$", "a|b"}, []string{"ab"}}, {[]string{"^[ab]+$", "^a", "a|b"}, []string{"a", "ab", "aa"}}, {[]string{"[0-9]", "^.{2}$", "0$"}, []string{"10", "00"}}, {[]string{"é", "^.{2}$", "^é"}, []string{"éa", "éé"}}})
 		subs := []map[string]any{{"type": "integer"}, {"maximum": json.Number("10")}, {"minimum": json.Number("0")}, {"multipleOf": json.Number("2")}, {"type": "number"}, {"exclusiveMaximum": json.Number("20")}, {"enum": []any{json.Number("5"), json.Number("20"), "x"}}, {"not": map[string]any{"const": json.Number("5")}}}
 		pats := map[string]any{}
 		for _, i := range r.Perm(len(group.pats))[:2+r.IntN(len(group.pats)-1)] {
